@@ -99,6 +99,10 @@ type Run struct {
 	Injected           map[string]time.Duration // virtual delay injected per goroutine tag (slow goroutine fault)
 	SelectsOn          bool                     // receive-only selects rewritten by simbuild are scheduler decisions
 	YieldNum, YieldDen uint64
+	// StallPerMille > 0: that share of the yields taken is a stall of one of the durations
+	// in StallFor (virtual time), not just a hand-over of the processor.
+	StallPerMille uint64
+	StallFor      []time.Duration
 	yieldSites         map[string]bool
 }
 
